@@ -175,13 +175,13 @@ func (c *Collection) Update(id string, msg proto.Message, opts ...WriteOption) (
 	}
 	c.pub.wait(ticket)
 	simhook.Yield("collection.publish")
-	c.bus.Send(context.TODO(), &CollectionChange{
+	c.bus.Send(context.TODO(), published{ticket: ticket, change: &CollectionChange{
 		Id:         id,
 		ChangeTime: writeRequest.updateTime(c.clock),
 		ChangeType: changeType,
 		OldValue:   oldValue,
 		NewValue:   newValue,
-	})
+	}})
 	c.pub.done()
 	return newValue, nil
 }
@@ -230,13 +230,14 @@ func (c *Collection) Delete(id string, opts ...WriteOption) (proto.Message, erro
 
 		// actually do the delete
 		delete(c.byId, id)
-		c.pub.wait(c.pub.ticket())
-		c.bus.Send(context.TODO(), &CollectionChange{
+		ticket := c.pub.ticket()
+		c.pub.wait(ticket)
+		c.bus.Send(context.TODO(), published{ticket: ticket, change: &CollectionChange{
 			Id:         id,
 			ChangeTime: args.updateTime(c.clock),
 			ChangeType: types.ChangeType_REMOVE,
 			OldValue:   oldVal.body,
-		})
+		}})
 		c.pub.done()
 		c.mu.Unlock()
 		return oldVal.body, nil
@@ -249,7 +250,7 @@ func (c *Collection) Pull(ctx context.Context, opts ...ReadOption) <-chan *Colle
 	readConfig := ComputeReadConfig(opts...)
 	filter := readConfig.ResponseFilter()
 
-	emit, currentValues := c.onUpdate(ctx, readConfig)
+	emit, currentValues, reflected := c.onUpdate(ctx, readConfig)
 	send := make(chan *CollectionChange)
 
 	go func() {
@@ -279,7 +280,10 @@ func (c *Collection) Pull(ctx context.Context, opts ...ReadOption) <-chan *Colle
 		}
 
 		for event := range emit {
-			change := event.(*CollectionChange)
+			change, skip := unpublished(event, reflected)
+			if skip {
+				continue // committed before the seed was taken, published after we subscribed: the seed has it
+			}
 			change, ok := change.include(readConfig.Include)
 			if !ok {
 				continue
@@ -339,22 +343,25 @@ func (c *Collection) PullID(ctx context.Context, id string, opts ...ReadOption) 
 	return send
 }
 
-func (c *Collection) onUpdate(ctx context.Context, config *ReadRequest) (<-chan any, []idItem) {
-	var res []idItem
+// onUpdate subscribes to changes and, unless config asks for updates only, takes the seed in the same critical section.
+// Writers publish after releasing the lock, so a write that the seed already contains may still be published to the
+// new subscription; reflected tells such events (those with a smaller ticket) apart.
+func (c *Collection) onUpdate(ctx context.Context, config *ReadRequest) (ch <-chan any, res []idItem, reflected uint64) {
 	if !config.UpdatesOnly {
 		simhook.BeforeRLock("collection.sub.snapshot", &c.mu)
 		c.mu.RLock()
 		defer c.mu.RUnlock()
 		res = c.itemSlice(config)
+		reflected = c.pub.issued()
 	}
 
 	simhook.Yield("collection.sub.listen")
-	ch := c.bus.Listen(ctx)
+	ch = c.bus.Listen(ctx)
 	if !config.Backpressure {
-		ch = mergeCollectionExcess(ch)
+		ch = mergeCollectionExcessAfter(ch, reflected)
 	}
 
-	return ch, res
+	return ch, res, reflected
 }
 
 // Clock returns the clock used by this resource for reporting time.
